@@ -17,6 +17,16 @@ fn main() {
     let what = args.get(1).map(|s| s.as_str()).unwrap_or("");
     let found = match what {
         "c06" => c06::search(),
+        "libm-table" => {
+            // exact libm values used to build the 8-bit correction table inside Kani
+            // (Kani cannot call the foreign log1p/exp): ln(1 + exp(-t/8)), t = 0..=127
+            for t in 0..=127u32 {
+                let v = (-(t as f64 / 8.0)).exp().ln_1p();
+                let r = (8.0 * v).round() as i8;
+                println!("{:#018x} {}", v.to_bits(), if r > 0 { r } else { 0 });
+            }
+            return;
+        }
         "c17" => c17::search(),
         "c01" => dec::search_c01(),
         "c10" => dec::search_c10(),
